@@ -291,6 +291,11 @@ class Lin:
             return self.target_cell(lhs["args"][0], env)
         if k == "Borrow":
             return self.target_cell(lhs["e"], env)
+        if k == "Call" and callee(lhs) in ("core::option::Option::<T>::unwrap", "core::option::Option::<T>::expect",
+                                           "core::iter::traits::iterator::Iterator::next", "core::slice::<impl [T]>::iter_mut",
+                                           "core::slice::<impl [T]>::first_mut", "core::slice::<impl [T]>::last_mut",
+                                           "core::iter::traits::double_ended::DoubleEndedIterator::next_back"):
+            return self.target_cell(lhs["args"][0], env)
         if k == "Field":
             # a field of a tuple/struct local: collapse into the whole
             return self.target_cell(lhs["e"], env)
@@ -300,13 +305,15 @@ class Lin:
         cell = self.target_cell(lhs, env)
         v = scalar(self.read(val))
         l0 = strip(lhs)
-        if v == L and self.frames and l0.get("k") in ("Index", "Deref", "Call"):
+        if cell is None:
+            self.note("store to an untracked place: %s" % show(lhs)[:80])
+        if v == L and self.frames and l0.get("k") in ("Index", "Deref", "Call") and (l0.get("ty") in ("f64", "f32") or l0.get("ty") is None):
             fr = self.frames[-1]
             self.adjoint_bodies.add(fr["body"])
             self.adjoint_stores.append({"body": fr["body"], "kind": fr["kind"], "loops": list(fr["loops"]), "outer": fr["outer"],
-                                        "lhs": l0, "op": op, "rhs": rhs, "enclosing": [f["body"] for f in self.frames]})
+                                        "lhs": l0, "op": op, "rhs": rhs, "enclosing": [f["body"] for f in self.frames],
+                                        "kinds": [f["kind"] for f in self.frames], "notes_before": len(self.notes)})
         if cell is None:
-            self.note("store to an untracked place: %s" % show(lhs)[:80])
             return
         old = cell.t
         if old is not None and old.k in ("tup", "vec", "opt", "clo", "fn") and op is None:
@@ -751,6 +758,8 @@ class Lin:
         if path in IDENT_FIRST_C_REST:
             if any(s not in (C, Z) for s in sc[1:]):
                 return tN
+            if args and args[0] is not None and args[0].k == "ref":
+                return args[0]
             return rd[0] if rd[0] is not None and rd[0].k in ("tup", "vec") else T(first)
         if path in SHAPE_ONLY or res in SHAPE_ONLY:
             return tC
@@ -764,9 +773,36 @@ class Lin:
             return T("tup", items=[args[0], args[1]])
         if path == "core::iter::traits::iterator::Iterator::chain":
             return T(join_branch(sc[0], sc[1]))
+        if path == "core::iter::traits::iterator::Iterator::map" and rd[0] is not None and rd[0].k == "vec" and rd[0].items \
+                and any(x is not None and x.k in ("opt", "tup", "vec") for x in [self.read(i) for i in rd[0].items]):
+            # a literal collection of structured values (e.g. `[Some(a), Some(b), c]`): element-wise
+            return T("vec", items=[self.apply(args[1], [it], kind="map") for it in rd[0].items])
+        if path == "core::iter::traits::iterator::Iterator::flatten" and rd[0] is not None and rd[0].k == "vec":
+            out = []
+            for it in rd[0].items:
+                x = self.read(it)
+                if x is not None and x.k == "opt":
+                    if x.present is not False:
+                        out.append(x.inner if x.inner is not None else tN)
+                else:
+                    out.append(it)
+            return T("vec", items=out)
         if path in ("core::iter::traits::iterator::Iterator::map", "core::iter::traits::iterator::Iterator::flat_map",
                     "core::iter::traits::iterator::Iterator::filter_map"):
-            return self.apply(args[1], [args[0]])
+            return self.apply(args[1], [args[0]], kind="map")
+        if path in ("core::slice::<impl [T]>::chunks_exact_mut", "core::slice::<impl [T]>::chunks_mut", "core::slice::<impl [T]>::split_at_mut",
+                    "core::slice::<impl [T]>::rchunks_mut", "core::slice::<impl [T]>::first_mut", "core::slice::<impl [T]>::last_mut",
+                    "core::slice::<impl [T]>::get_mut", "core::slice::<impl [T]>::as_mut"):
+            if any(s_ not in (C, Z) for s_ in sc[1:]):
+                return tN
+            return args[0]      # references into the same buffer
+        if path in ("core::slice::<impl [T]>::chunks_exact", "core::slice::<impl [T]>::chunks", "core::slice::<impl [T]>::windows",
+                    "core::slice::<impl [T]>::rchunks", "core::slice::<impl [T]>::get", "core::slice::<impl [T]>::split_at",
+                    "core::iter::traits::iterator::Iterator::flatten", "core::iter::traits::iterator::Iterator::step_by",
+                    "core::iter::sources::once::once", "core::iter::sources::repeat::repeat"):
+            if any(s_ not in (C, Z) for s_ in sc[1:]):
+                return tN
+            return T(first) if rd else tC
         if path in ("core::iter::traits::iterator::Iterator::for_each",):
             for _ in range(2):
                 self.apply(args[1], [args[0]], kind="for_each")
@@ -879,6 +915,12 @@ class Lin:
         if path == "core::ops::range::RangeInclusive::<Idx>::new":
             return T(C if all(s in (C, Z) for s in sc) else N)
         # --- unknown callee
+        if any(a is not None and a.k == "ref" for a in args):
+            for a in args:
+                if a is not None and a.k == "ref":
+                    a.cell.t = tN
+            self.note("no summary for callee %s which receives a mutable buffer" % path)
+            return tN
         if any(a is not None and a.k in ("clo", "fn") for a in rd):
             self.note("no summary for callee %s which receives a closure" % path)
             return tN
